@@ -259,6 +259,17 @@ def oracle(ctx, extra):
     fails = []
     n = 0
     seen = set()
+    # corner documents converted on every run (the sampled ones meet them only now and then): directive options whose value begins
+    # like a valid one and goes on with markup, in both escape modes
+    for name, plugins, directives in cfgs:
+        if not directives:
+            continue
+        for ty in ("image", "figure"):
+            for opt in ("width", "height", "align", "alt", "target", "figwidth", "figclass"):
+                for val in ('1"><b>', '100px"><li>x', 'left"><b>', 'c1"><i>', "/t\"><b>"):
+                    doc = "```{%s} a.png\n:%s: %s\n```\n" % (ty, opt, val)
+                    if check_html(m, name, plugins, doc, True, False, fails):
+                        n += 1
     for i in range(ctx.n(2500, 50000)):
         name, plugins, directives = cfgs[i % len(cfgs)]
         names = [p for p in plugins if isinstance(p, str)]
